@@ -213,6 +213,21 @@ func writeManifest(dir, eco string, reqs []MReq, layout string) (string, error) 
 	if err := os.MkdirAll(dir, 0o755); err != nil {
 		return "", err
 	}
+	if eco == "Maven" && layout == "local-parent" {
+		// the requirements live in a local parent pom (parent/pom.xml), the scanned pom only refers to it
+		par := filepath.Join(dir, "parent")
+		if err := os.MkdirAll(par, 0o755); err != nil {
+			return "", err
+		}
+		_, pc := renderManifest(eco, reqs, "")
+		pc = strings.Replace(pc, "<artifactId>"+rootMavenA+"</artifactId>\n  <version>1.0.0</version>\n", "<artifactId>"+rootMavenA+"-parent</artifactId>\n  <version>1.0.0</version>\n  <packaging>pom</packaging>\n", 1)
+		if err := os.WriteFile(filepath.Join(par, "pom.xml"), []byte(pc), 0o644); err != nil {
+			return "", err
+		}
+		child := fmt.Sprintf("<project>\n  <modelVersion>4.0.0</modelVersion>\n  <parent>\n    <groupId>%s</groupId>\n    <artifactId>%s-parent</artifactId>\n    <version>1.0.0</version>\n    <relativePath>parent/pom.xml</relativePath>\n  </parent>\n  <artifactId>%s</artifactId>\n</project>\n", rootMavenG, rootMavenA, rootMavenA)
+		p := filepath.Join(dir, "pom.xml")
+		return p, os.WriteFile(p, []byte(child), 0o644)
+	}
 	name, content := renderManifest(eco, reqs, layout)
 	p := filepath.Join(dir, name)
 	return p, os.WriteFile(p, []byte(content), 0o644)
